@@ -63,10 +63,14 @@ type c07Model struct {
 	// bundles for e1 / e2 that arrived while nobody was registered for the endpoint: they wait in the store and are
 	// delivered by the next retry once somebody is
 	Unclaimed [2][]int
+	// Claimed: a waiting bundle of this endpoint was delivered by a retry at least once. The implementation treats
+	// such a bundle differently from one delivered on arrival (it went through the forwarding path first), so the
+	// two histories are not merged.
+	Claimed [2]bool
 }
 
 func (m c07Model) key() string {
-	return fmt.Sprintf("%v|%v|%v|%d|%d,%d", m.Client, m.Mailbox, m.Mock, len(m.MockGot), len(m.Unclaimed[0]), len(m.Unclaimed[1]))
+	return fmt.Sprintf("%v|%v|%v|%d|%d,%d", m.Client, m.Mailbox, m.Mock, len(m.MockGot), len(m.Unclaimed[0]), len(m.Unclaimed[1])) + fmt.Sprint(m.Claimed)
 }
 
 func c07Alphabet() []c07Event {
@@ -90,6 +94,9 @@ func c07Alphabet() []c07Event {
 type c07Task struct {
 	Events []c07Event `json:"events"`
 	Order  int32      `json:"order"` // sync.Map range order (1 ascending, 2 descending by registration)
+	// NoPeers: no convergence sender is connected (a bundle nobody is registered for cannot be forwarded and waits
+	// with other retention constraints than after a successful forwarding)
+	NoPeers bool `json:"no_peers,omitempty"`
 }
 
 type c07Result struct {
@@ -143,8 +150,10 @@ func c07Replay(t c07Task) (res c07Result) {
 	n.core.RegisterApplicationAgent(h.rest)
 	h.ping = agent.NewPing(gen.MustEID("dtn://node/ping"))
 	n.core.RegisterApplicationAgent(h.ping)
-	n.peerUp("r2")
-	n.peerUp("far")
+	if !t.NoPeers {
+		n.peerUp("r2")
+		n.peerUp("far")
+	}
 	// deterministic Range order: by registration order of the REST clients
 	regOrder := map[string]int{}
 	vsync.RangeLess.Store(func(a, b interface{}) bool {
@@ -308,6 +317,9 @@ func c07Replay(t c07Task) (res c07Result) {
 					got++
 				}
 				if got > 0 {
+					if len(m.Unclaimed[ep]) > 0 {
+						m.Claimed[ep] = true
+					}
 					claimed = append(claimed, m.Unclaimed[ep]...)
 					m.Unclaimed[ep] = nil
 				}
@@ -394,7 +406,7 @@ func c07Replay(t c07Task) (res c07Result) {
 			n.core.VerifAgentMarker(gen.MustEID("dtn://node/ping"))
 			n.core.VerifAgentFlush()
 			// the pong travels ping agent -> mux -> agent manager -> SendBundle -> peer "far": wait for it
-			if !waitFor(func() bool { return n.nSends() > before }) {
+			if !t.NoPeers && !waitFor(func() bool { return n.nSends() > before }) {
 				return fail("no-pong", "the ping agent did not answer", i)
 			}
 			// ... and let the agent manager finish handling it (two markers through the agent -> manager pipeline)
@@ -482,6 +494,9 @@ func (m *c07Model) step(e c07Event) bool {
 				n++
 			}
 			if n > 0 {
+				if len(m.Unclaimed[ep]) > 0 {
+					m.Claimed[ep] = true
+				}
 				m.Unclaimed[ep] = nil
 			}
 		}
@@ -527,6 +542,13 @@ func runC07(r *ev.Run, thorough bool) int {
 				transitions++
 				for _, ord := range []int32{1, 2} {
 					tasks = append(tasks, c07Task{Events: tr, Order: ord})
+				}
+				// histories with a retry also without any connected peer
+				for _, ev := range tr {
+					if ev.Op == "retry" {
+						tasks = append(tasks, c07Task{Events: tr, Order: 1, NoPeers: true})
+						break
+					}
 				}
 				if k := m2.key(); !seen[k] {
 					seen[k] = true
